@@ -40,15 +40,15 @@ def ch_impl_np(data, labels, K, means=None):
     return (B / Wd) * ((T - K) / (K - 1))
 
 
-def impl_value(data, labels, K):
+def impl_value(data, labels, K, biased=False):
     from fast_ticc import cluster_metrics as cmx
     from fast_ticc.containers import model_state, arguments
+    from fast_ticc import cluster_maintenance as cm
     ua = arguments.UserArguments(sparsity_weight=0.1, iteration_limit=1, label_switching_cost=1.0, min_cluster_size=1,
-                                 min_meaningful_covariance=0, num_clusters=K, num_processors=1, biased_covariance=False, window_size=1)
+                                 min_meaningful_covariance=0, num_clusters=K, num_processors=1, biased_covariance=biased, window_size=1)
     ms = model_state.ModelState.empty_model(ua, data)
     ms.point_labels = list(labels)
-    for k, c in enumerate(ms.clusters):
-        c.stacked_data_mean = data[c.member_points].mean(axis=0)
+    ms = cm.update_all_cluster_statistics(ms, data)       # the state as the main loop would have it: member means and covariances
     return float(cmx.calinski_harabasz_index(data, ms))
 
 
@@ -72,7 +72,7 @@ def run(ctx):
             if d >= 2:
                 ctx.mark_nontrivial(repr(case))
             with ctx.guard("calinski_harabasz_index", case):
-                got = impl_value(data, labels, K)
+                got = impl_value(data, labels, K, biased=bool(i % 2))
                 lits.append("(%s, %s, %s)" % (c_nat(K), c_list([c_list(r, c_Z) for r in data.astype(int).tolist()]), c_list(labels, c_nat)))
                 meta.append((case, got))
         # (b) traced runs
@@ -118,7 +118,7 @@ def run(ctx):
             labels = [int(x) for x in ([k for k in range(K)] * 2 + list(rng.integers(0, K, size=T - 2 * K)))]
             data = rng.normal(size=(T, d))
             data = data - data.mean(axis=0) + 3.0          # every column has the same mean: scalar centre = centroid
-            got = impl_value(data, labels, K)
+            got = impl_value(data, labels, K, biased=bool(j % 2))
             ref = ch_def_np(data, labels, K)
             ctx.count("centred")
             if abs(got - ref) > 1e-9 * max(1.0, abs(ref)):
